@@ -38,6 +38,7 @@ THEOREMS = [
     "IrVerif.Scope.C03_meta_roundtrip",
     "IrVerif.Scope.C03_roundtrip_decorated",
     "IrVerif.Scope.C03_pure_decorated",
+    "IrVerif.Scope.C03_pure_ext",
 ]
 ASSUMPTIONS = [
     "value-info content and tensor payloads are opaque tokens in the model; non-graph node attributes are compared by "
@@ -1044,15 +1045,8 @@ def diff_case(part, out: dict, case, flags, world0, model, p1, err, m2) -> None:
 # --------------------------------------------------------------------------- worker / run
 
 
-def _worker(args) -> Part:
-    seed, n = args
-    _quiet()
-    rng = random.Random(seed)
-    part = Part()
-    reqs: list = []
-    pending: list = []
-    for _ in range(n):
-        run_case(part, rng.randrange(2**62), rng.choice([0.0, 0.0, 0.05, 0.15, 0.4]), reqs, pending)
+def _flush(part, reqs: list, pending: list) -> None:
+    """answer the queued model requests and diff them; the queues are emptied (bounded memory in the thorough tier)"""
     for out, p in zip(lean_batch(reqs), pending):
         if p[0] == "M":
             diff_case_model(part, out, *p[1:])
@@ -1062,6 +1056,22 @@ def _worker(args) -> Part:
             diff_ext(part, out, *p[1:])
         else:
             diff_case(part, out, *p)
+    reqs.clear()
+    pending.clear()
+
+
+def _worker(args) -> Part:
+    seed, n = args
+    _quiet()
+    rng = random.Random(seed)
+    part = Part()
+    reqs: list = []
+    pending: list = []
+    for _ in range(n):
+        run_case(part, rng.randrange(2**62), rng.choice([0.0, 0.0, 0.05, 0.15, 0.4]), reqs, pending)
+        if len(reqs) >= 1500:
+            _flush(part, reqs, pending)
+    _flush(part, reqs, pending)
     return part
 
 
